@@ -31,7 +31,7 @@ def vcs(B):
     B.prog.options['dyn_locals'] = {'J': (M, 6), 'Y': (M, 1)}
     B.prog.options['opaque_calls'] = {'setDataSize', 'estimateUsingSVD'}
     B.prog.options['const_names'] = {'CARTESIAN_DIM': 3}      # PointTraits<Eigen::Vector3d>::DIM (stated assumption: not read from the AST)
-    B.prog.options['dyn_returns'] = {'estimateUsingSVD': (6, 1)}
+    B.prog.options['dyn_returns'] = {'estimateUsingSVD': (6, 1), 'getJ': (M, 6), 'getY': (M, 1)}
     B.function('P2P3__estimate_corr', P, 'estimate_', nparams=4)
     B.function('P2P3__estimate_aligned', P, 'estimate_', nparams=3)
     B.extract()
